@@ -132,6 +132,8 @@ func H_c13(p []int) {
 		vAssert(bytesEq([]byte(earlyS), earlySCopy), "C13/early-plain-string-stable")
 		r1, r2 := []byte(b1.RedactableString()), []byte(fresh.RedactableString())
 		vObserve("r1", r1)
+		wf1, _ := wfls(r1)
+		vAssert(wf1, "C01/wf-after-take")
 		vAssert(bytesEq(r1, r2), "C13/pristine-after-reset-or-take")
 		vAssert(b1.Len() == fresh.Len(), "C13/len-agree")
 		if which == 1 {
@@ -195,6 +197,8 @@ func H_c13(p []int) {
 		}
 		r1, r2 := []byte(b1.RedactableString()), []byte(fresh.RedactableString())
 		vObserve("r1", r1)
+		wf1, _ := wfls(r1)
+		vAssert(wf1, "C01/wf-after-take")
 		vAssert(bytesEq(r1, r2), "C13/pristine-after-reset-or-take")
 		if which == 1 {
 			vAssert(bytesEq([]byte(takenS), taken), "C13/taken-string-stable")
